@@ -288,6 +288,13 @@ def build_series(case, nframes=2, times=None, disp=None, renumber=False):
             # ids shifted cyclically so that one junction of every frame carries the id 0
             jz = int(np.random.default_rng(case["seed"] + 1000 + t).integers(0, 3))
             vmap = (lambda i, jz=jz: (i + 100000 - jz) % 100000)
+        elif renumber == "dense":
+            # the junctions (created first) of every frame get a permutation of the same small id range: ids of one frame coincide
+            # with ids of other vertices of the next frame
+            r2 = np.random.default_rng(case["seed"] + 1000 + t)
+            m_ = 61
+            perm = r2.permutation(m_)
+            vmap = (lambda i, perm=perm, m_=m_: int(perm[i % m_]) + m_ * (i // m_))
         elif renumber:
             r2 = np.random.default_rng(case["seed"] + 1000 + t)
             perm = r2.permutation(4000)
